@@ -448,6 +448,16 @@ func runC08(c *CaseCtx) (res CaseResult) {
 				res.obs("incomplete_redefined_calls_before_the_checked_one", 1)
 			}
 		}
+		if r.Intn(4) == 0 {
+			// ... or a call in which every error-declaring converter fails
+			// INSIDE the redefined function
+			inc, _, _ := redefinedArgs(in.W, rf, 800+call, r)
+			in.W.FailOn = func(fi, exec int, specFail bool) bool { return true }
+			DoCall(in.W, rf, inc)
+			in.W.FailOn = nil
+			res.Evals++
+			res.obs("failing_redefined_calls_before_the_checked_one", 1)
+		}
 		args, lbls, ids := redefinedArgs(in.W, rf, call, r)
 		n0 := in.W.NumEvents()
 		o2 := DoCall(in.W, rf, args)
